@@ -57,6 +57,31 @@ def M3(self, a="d", b="d", c="d"):
     return self.n2
 
 
+DESC_CALLS: list = []
+
+
+def describe(x):
+    """everything a function can tell about a value: type, shape, dtype, content"""
+    import numpy as np
+
+    if isinstance(x, np.ndarray | np.generic):
+        return f"{type(x).__name__}:{x.shape}:{x.dtype}:{np.asarray(x).ravel().tolist()}"
+    return f"{type(x).__name__}:{x!r}"
+
+
+@as_function_node("y", validate_output_labels=False)
+def Desc(x):
+    DESC_CALLS.append(1)
+    y = describe(x)
+    return y
+
+
+@as_macro_node("y")
+def MDesc(self, x):
+    self.d = Desc(x=x)
+    return self.d
+
+
 # ---- nested composites for the tree cases: labels n<k> (function nodes) and m<k> (macros) ----------------
 
 
